@@ -18,6 +18,7 @@ type Opts struct {
 	ListRules   bool
 	Descs       bool
 	OddNames    bool // acronym / digit names (no expected-model lanes)
+	EntityOnly  bool // every file gets an entity (C17)
 	Noise       bool
 	// Mask disables features that are excluded by construction because of an open
 	// finding; the key names are those used in Classes.
@@ -187,7 +188,7 @@ func Draw(t *rapid.T, o Opts) (*Bundle, map[string]bool) {
 				f.Decls = append(f.Decls, &Decl{Topic: g.topic()})
 				g.cls("topic")
 			}
-			if o.Entities && rapid.IntRange(0, 1).Draw(t, "hasentity") == 0 {
+			if o.Entities && (o.EntityOnly || rapid.IntRange(0, 1).Draw(t, "hasentity") == 0) {
 				f.Decls = append(f.Decls, &Decl{Entity: g.entity()})
 				g.cls("entity")
 			}
@@ -778,6 +779,32 @@ func (g *gen) entity() *Entity {
 			s.Name = e.Name + []string{"Summary", "Digest"}[i]
 		}
 		e.Summaries = append(e.Summaries, s)
+	}
+	nc := rapid.IntRange(0, 2).Draw(t, "ncommands")
+	for i := 0; i < nc; i++ {
+		cmd := &Service{}
+		if i > 0 {
+			cmd.Name = e.Name + "Admin"
+			cmd.BasePath = "admin"
+		}
+		names := map[string]bool{}
+		pk := e.Keys[0]
+		m := g.method(names)
+		m.HTTPMethod = "POST"
+		m.NoResponse = false
+		m.Request = append([]*Field{{Name: pk.Name, Type: &Type{Kind: "key", Format: pk.Type.Format}}}, m.Request...)
+		seenReq := map[string]bool{}
+		var req []*Field
+		for _, f := range m.Request {
+			if !seenReq[f.Name] {
+				seenReq[f.Name] = true
+				req = append(req, f)
+			}
+		}
+		m.Request = req
+		m.HTTPPath = "/:" + pk.Name + "/" + strings.ToLower(m.Name)
+		cmd.Methods = []*Method{m}
+		e.Commands = append(e.Commands, cmd)
 	}
 	if rapid.IntRange(0, 2).Draw(t, "query") == 0 {
 		e.EventsInGet = rapid.Bool().Draw(t, "eig")
